@@ -78,7 +78,7 @@ def mkWorld (t : Tables) : World :=
 
 def showErr : Err → String
   | .lookupError => "LookupError" | .unicodeDecodeError => "UnicodeDecodeError"
-  | .attributeError => "AttributeError" | .outOfFuel => "OutOfFuel"
+  | .outOfFuel => "OutOfFuel"
 
 def showOpt : Option Name → String
   | none => "N"
